@@ -4,7 +4,10 @@
   lines, redundancy suppression, the timing round trip in exact arithmetic), Props/C02Codec.lean (the model's IEEE
   number codec satisfies the codec laws), Props/C02File.lean (the parts composed: `roundtrip_rep_partial`, one
   statement about one decode of `encode m` for maps satisfying `RepMap`) and Props/C02Decoded.lean (record sections of
-  every decoded map). All in namespace `Rosu.C02`.
+  every decoded map), and the map-level step "(a)": Props/C02FinalParts.lean (sort / breaks / velocity ingredients),
+  Props/C02Final.lean (`Finalized`, `roundtrip_objects_rep_core`, `roundtrip_objects_rep_partial`), Props/C02FinalDecoded.lean
+  (`decoded_finalized`; Props/C02FinalUnordered.lean: its chronological hypothesis is needed), Props/C02FinalMania.lean (taiko / mania, all modes) and Props/C02FinalToy.lean (non-vacuity).
+  All in namespace `Rosu.C02`.
 -/
 import RosuModel.Props.C02Slider
 import RosuModel.Props.C02Timing
@@ -14,3 +17,9 @@ import RosuModel.Props.C02Decoded
 import RosuModel.Props.C02CodecIeee
 import RosuModel.Props.IeeeFalse
 import RosuModel.Props.C02DecodedIeee
+import RosuModel.Props.C02FinalParts
+import RosuModel.Props.C02Final
+import RosuModel.Props.C02FinalDecoded
+import RosuModel.Props.C02FinalMania
+import RosuModel.Props.C02FinalToy
+import RosuModel.Props.C02FinalUnordered
